@@ -23,7 +23,8 @@ RULE = ("Enumerated completely on 16 processes in both tiers: every date 0001-01
         "Generated: intra-day datetimes, arbitrary offset pairs inside year 1..9999, histories of up to 30 operations (offsets, reconstruction via label / raw / start / end / any day of the dekad) tracked by an integer model, comparisons with str/int/date operands, and the "
         ".dekad accessor on generated datetime64 arrays against the scalar class element-wise. Non-trivial: every case (the suite "
         "asserts ~60 hand-picked facts); distinct by date / dekad number. "
-        " Added after the fourth seeded round: Sub-check 'accessor_history': one time coordinate queried repeatedly while handed-out arrays are modified (where writable) and labels replaced in place.")
+        " Added after the fourth seeded round: Sub-check 'accessor_history': one time coordinate queried repeatedly while handed-out arrays are modified (where writable) and labels replaced in place. "
+        " Added after the fifth seeded round: Dekadal axes with repeated and missing dekads.")
 ASSUME = ["python calendar/datetime as the calendar model"]
 EXHAUSTIVE_WHOLE = True  # set to the truth at run time (thorough tier only)
 
